@@ -517,7 +517,11 @@ func runC07(c *Ctx) error {
 	want := c.Pick(600, 3000)
 	c.Rule = "grammars with error-first alternatives (conflict-free, and conflicting ones generated with -a); inputs valid, singly and multiply erroneous, errors at end of input; the full event log (scans, action calls with error attributes: offending token identity and discarded attributes, result or error) must equal M-LR1 with the recovery rule of the statement; token conservation checked on the log; non-trivial = reference run performed at least one recovery attempt; distinct by (grammar, tokens)"
 	c.Assumptions = []string{"recovery rule read literally from C07: topmost state that can shift 'error'", "ExpectedTokens of recovered errors is recorded, not judged"}
-	clean := genSynJobs(c.Rng, nG*2/3, "g", synFilter{class: func(k model.LRClass) bool { return k == model.ClassClean }, withErrors: true, actionMode: 1, flags: flagsZipAlternate,
+	clean := genSynJobs(c.Rng, nG*2/3, "g", synFilter{class: func(k model.LRClass) bool { return k == model.ClassClean }, withErrors: true, actionMode: 1,
+		flags: func(i int) []string {
+			// recovery must work whatever presentation flags the parser was generated with
+			return [][]string{nil, {"-zip"}, nil, {"-debug_parser"}, {"-zip"}, {"-v"}, nil, {"-zip", "-debug_parser"}}[i%8]
+		},
 		family: func(i int) string { return []string{"errorder", "", "stmts", "errdeep", "list", "errorder", "", "errdeep"}[i%8] }})
 	confl := genSynJobs(c.Rng, nG-len(clean), "h", synFilter{class: func(k model.LRClass) bool { return k == model.ClassConflict }, withErrors: true, ambiguous: true, actionMode: 1,
 		flags: func(i int) []string { return []string{"-a"} }})
